@@ -74,7 +74,7 @@ RULE_KV = ("random histories (1-6 keys, key length in {1,4,8,33,128}, timestamps
 
 PROPS = {
     'C01': dict(
-        gen=lambda rng, tier: gen.kv_scenario(rng, 'c01', size=tier),
+        gen=lambda rng, tier: (gen.tie_depth_scenario if rng.random() < 0.04 else gen.kv_scenario)(rng, 'c01', size=tier),
         p_cmds={'r', 'c'}, oracle_cmds={'r', 'c', 'states'},
         count={'quick': 240, 'thorough': 4000},
         nontrivial=gen.nontrivial_kv, features=kv_features, rule=RULE_KV,
